@@ -1563,6 +1563,10 @@ func (c *Ctx) dependsOnAssumption(v ssa.Value, d int) bool {
 		return c.dependsOnAssumption(x.X, d+1)
 	case *ssa.ChangeType:
 		return c.dependsOnAssumption(x.X, d+1)
+	case *ssa.Call:
+		if _, ok := c.evalInt(x, d+1); ok {
+			return true
+		}
 	case *ssa.Phi:
 		// the assumptions select among its incoming edges
 		if c.phiLevel() == 0 {
@@ -1595,6 +1599,25 @@ func (c *Ctx) evalInt(v ssa.Value, d int) (constant.Value, bool) {
 		return c.evalInt(x.X, d+1)
 	case *ssa.ChangeType:
 		return c.evalInt(x.X, d+1)
+	case *ssa.Call:
+		// a call to a single-return module function: its result expression,
+		// with the parameters standing for the arguments of this call
+		if fn := x.Call.StaticCallee(); fn != nil && fn.Blocks != nil && c.P.InModule(fn) && len(x.Call.Args) == len(fn.Params) && prov.SubstDepth() < 3 {
+			var ret *ssa.Return
+			n := 0
+			for _, b := range fn.Blocks {
+				if r, ok := b.Instrs[len(b.Instrs)-1].(*ssa.Return); ok {
+					ret = r
+					n++
+				}
+			}
+			if n == 1 && len(ret.Results) == 1 {
+				prov.PushSubst(fn, &x.Call)
+				val, ok := c.evalInt(ret.Results[0], d+1)
+				prov.PopSubst()
+				return val, ok
+			}
+		}
 	case *ssa.Phi:
 		// the value of a phi all of whose feasible incoming edges carry the
 		// same constant (feasibility is decided without this rule, which can
